@@ -323,7 +323,7 @@ def alive(pid, role):
 INVOKE = ('abs', 'rel', 'dotdot', 'symlink', 'symlink-abs')
 
 
-def run(drv, rundir, args, files=None, env_extra=None, missing=(), timeout=20, stdin_data=b'STDIN-DATA', invoke='abs'):
+def run(drv, rundir, args, files=None, env_extra=None, missing=(), timeout=20, stdin_data=b'STDIN-DATA', invoke='abs', real_cc=None, stderr_full_pipe=False):
     """Run the driver in a fresh directory.  files: {relative name: bytes}; missing: roles whose tool does not exist.
     -> Obs(status, signal, timeout, stdout, stderr, logs{role: [rec]}, driverlog, files_after, tmp_left, alive)"""
     shutil.rmtree(rundir, ignore_errors=True)
@@ -335,7 +335,7 @@ def run(drv, rundir, args, files=None, env_extra=None, missing=(), timeout=20, s
         if role not in missing:
             os.symlink(drv['stub'], os.path.join(rundir, 'vfbin', role))
     if 'cproc-qbe' not in missing:
-        os.symlink(drv['stub'], os.path.join(rundir, 'cproc-qbe'))
+        os.symlink(real_cc or drv['stub'], os.path.join(rundir, 'cproc-qbe'))
     for name, data in (files or {}).items():
         p = os.path.join(rundir, name)
         os.makedirs(os.path.dirname(p), exist_ok=True)
@@ -356,7 +356,22 @@ def run(drv, rundir, args, files=None, env_extra=None, missing=(), timeout=20, s
             os.makedirs(os.path.join(rundir, 'alt'), exist_ok=True)
             os.symlink('../cproc', os.path.join(rundir, 'alt', 'cc'))
         argv0 = {'abs': os.path.join(rundir, 'cproc'), 'rel': './cproc', 'dotdot': 'sub/../cproc', 'symlink': 'alt/cc', 'symlink-abs': os.path.join(rundir, 'alt', 'cc')}[invoke]
-        p = subprocess.Popen([argv0] + list(args), stdin=fin, stdout=fout, stderr=ferr, cwd=rundir, env=env, start_new_session=True)
+        errfd = ferr
+        pr = pw = None
+        if stderr_full_pipe:
+            # standard error is a pipe nobody reads, already full, in non-blocking mode: a diagnostic cannot be written and must not keep the driver
+            import fcntl
+            pr, pw = os.pipe()
+            fcntl.fcntl(pw, fcntl.F_SETFL, fcntl.fcntl(pw, fcntl.F_GETFL) | os.O_NONBLOCK)
+            try:
+                while True:
+                    os.write(pw, b'x' * 4096)
+            except BlockingIOError:
+                pass
+            errfd = pw
+        p = subprocess.Popen([argv0] + list(args), stdin=fin, stdout=fout, stderr=errfd, cwd=rundir, env=env, start_new_session=True)
+        if pw is not None:
+            os.close(pw)
         try:
             rc = p.wait(timeout=timeout)
             o.timeout = False
@@ -367,6 +382,8 @@ def run(drv, rundir, args, files=None, env_extra=None, missing=(), timeout=20, s
             except OSError:
                 pass
             rc = p.wait()
+    if pr is not None:
+        os.close(pr)
     o.wall = time.time() - t0
     o.status = rc if rc >= 0 else None
     o.signal = -rc if rc < 0 else None
